@@ -547,6 +547,9 @@ def replay(path):
     """re-run exactly one recorded case against the implementation, the model and the spec"""
     rp = json.load(open(path))["replay"]
     case = rp.get("case") or rp.get("correspondence_case", {}).get("case")
+    if case is not None and "reload_overflow_case" in case:
+        case = reload_overflow_case(int(case["reload_overflow_case"]))
+        print("case: reload_overflow_case(%d) = %d inserts of distinct names, then a reload" % (len(case["ops"]) - 1, len(case["ops"]) - 1))
     if case is None:
         print("replay file names a broken proof obligation / correspondence, not an input:")
         print(json.dumps(rp, indent=1)[:3000])
@@ -560,7 +563,7 @@ def replay(path):
             errs, err = run_ctl_batch(sc, binary, [case], "replay")
         else:
             errs, _, err = run_batch(sc, binary, [case], "replay")
-        print("case:", json.dumps(case))
+        print("case:", json.dumps(case)[:4000])
         print("result (step, code): codes 1 impl<>model  2 impl<>spec  3 model<>spec  4 impl<>model final state  9 panic/error")
         if "bitmaps" in case:
             print("controller stream codes:", GLUE_CODES)
@@ -686,10 +689,13 @@ def _main_rest(args, out, rng, n_cases, wait_proofs, sc, built):
            "print_assumptions": pinfo.get("assumptions", []) + pinfo2.get("assumptions", []) + pinfo3.get("assumptions", []),
            "trusted_base": vlib.TRUSTED_BASE_COMMON + [
                "verif-tagged observer in syncOwner (control/verif_hooks_on.go) reporting the computed batches; the stub build cannot write a real eBPF map",
-               "Go maps modelled as total functions N -> option V; owner strings and 128-bit addresses numbered injectively by the orchestrator via the production key function"]}
+               "Go maps modelled as total functions N -> option V; owner strings and 128-bit addresses numbered injectively by the orchestrator via the production key function",
+               "controller glue: harness wrappers around the two production callbacks of dnsControllerOption (they record update/remove and delegate); cache key strings split at the first '|' into base and scope and numbered injectively (key_id, proved injective); *DnsCache identity modelled as the number of the creating operation; oracles per case: clock values read back from the implementation, bitmaps per fqdn and rule set, LRU victim set (validated), delivery of reload re-sync tasks"]}
     out.coverage = cov
     out.assumptions = ["kernel map semantics: batch update = upsert of each pair, batch delete = removal of each key",
-                       "a failing batch call midway (kernel error) and the asynchronous re-sync worker racing a delete are outside the property's quantifier"]
+                       "a failing batch call midway (kernel error) and the asynchronous re-sync worker racing a delete are outside the property's quantifier",
+                       "C10_ctl_mirror / C10_ctl_calls_track_cache assume every re-sync task queued by RestoreReloadCache is delivered (bounded queue of 1024, non-blocking send); the unconditional statement is refuted in the model (C10_ctl_mirror_full_refuted) and probed on the implementation with 900 and 3000 cached names",
+                       "controller operations are modelled at quiescence (the async re-sync worker has drained); the reuse-store reload path (ReuseForReload) is not driven"]
 
     if True:
         if binary is None:
@@ -781,12 +787,12 @@ def _main_rest(args, out, rng, n_cases, wait_proofs, sc, built):
         else:
             probe_cov["failed"] = [len(probe_cases[i]["ops"]) - 1 for i in sorted(perrs) if perrs[i]]
             if perrs.get(0):
-                out.violation("ctl_impl_vs_spec_reload", {"case": probe_cases[0], "errors": perrs[0],
+                out.violation("ctl_impl_vs_spec_reload", {"case": {"reload_overflow_case": len(probe_cases[0]["ops"]) - 1}, "errors": perrs[0],
                                                           "how": "feed case to TestVerifC10Ctl (quiet: only the last step is dumped): after the reload the kernel shadow map differs from the table of the live cache"},
                               "controller-level: after a reload of %d cached names the kernel table differs from the live DNS cache" % (len(probe_cases[0]["ops"]) - 1))
             elif perrs.get(1):
                 n_live = len(probe_cases[1]["ops"]) - 1
-                out.violation("ctl_reload_overflow", {"case": probe_cases[1], "errors": perrs[1],
+                out.violation("ctl_reload_overflow", {"case": {"reload_overflow_case": n_live}, "case_is": "tools/c10.py reload_overflow_case(n): n names h<i>.test (A, bitmap bit i mod 1000, address 10.9.8.(1 + i mod 16)) inserted, then one reload; quiet dump", "errors": perrs[1],
                                                       "how": "feed case to TestVerifC10Ctl (quiet: only the last step is dumped): RestoreReloadCache queues one re-sync task per restored entry with a non-blocking send on a queue of %d; "
                                                              "the entries whose task is dropped are live in the new generation's cache but have no entry in the cleared kernel table (until a later lookup, at least MinBpfUpdateInterval later, re-syncs them); "
                                                              "the same history with 900 names passes. Model: C10_ctl_mirror_full_refuted." % BPF_UPDATE_QUEUE_SIZE},
